@@ -10,6 +10,7 @@ the real `parse_files` reads (in order), their user-input flags and the include 
 locations must equal the model's.
 -/
 import Circomspect.Lemmas.IncludeLemmas
+import Circomspect.Lemmas.CfgReachLemmas
 
 namespace Circomspect.C19
 open Circomspect Includes
@@ -173,37 +174,133 @@ example : exFs.wf [0] = true := by decide
 example : (parseFiles exFs [0]).reads = [0, 2, 1] := by decide
 example : (parseFiles exFs [0]).errors = [(0, 2)] := by decide
 
-/-- the include statements reported for files that cannot be used do not depend on the order in which the files were read: for
-    two orders of the same set of files the reported sites are the same up to order (with `C19_reach` — the files read are the
-    files reachable from the named ones — they do not depend on the order of the arguments) -/
-theorem C19_bad_sites_order (fs : Fs) (inputs reads reads' : List File) (h : reads.Perm reads') :
-    (badSites fs inputs reads).Perm (badSites fs inputs reads') := by
-  unfold badSites
-  exact List.Perm.flatMap_right _ h
-
-/-- ... and every reported site is an include statement of a file that was read, resolving to a file that cannot be used and
-    was not named -/
-theorem C19_bad_sites_spec (fs : Fs) (inputs reads : List File) (f : File) (idx : Nat) (h : (f, idx) ∈ badSites fs inputs reads) :
-    f ∈ reads ∧ ∃ i t, (fs.incs f)[idx]? = some i ∧ resolve fs.libs i = some t ∧
+theorem badCond_iff (fs : Fs) (inputs : List File) (t : File) :
+    (!((fs.files[t]?.map (·.ok)).getD false) && !inputs.contains t) = true ↔
       (fs.files[t]?.map (·.ok)).getD false = false ∧ t ∉ inputs := by
-  unfold badSites at h
-  obtain ⟨g, hg, hm⟩ := List.mem_flatMap.mp h
-  obtain ⟨ii, hii, hsome⟩ := List.mem_filterMap.mp hm
-  cases hr : resolve fs.libs ii.1 with
-  | none => rw [hr] at hsome; cases hsome
-  | some t =>
-    rw [hr] at hsome
-    simp only at hsome
-    split at hsome
-    · rename_i hc
-      cases hsome
-      have hget := List.mem_zipIdx_iff_getElem?.mp hii
-      refine ⟨hg, ii.1, t, ?_, hr, ?_, ?_⟩
-      · simpa using hget
-      · have := hc; simp only [Bool.and_eq_true, Bool.not_eq_true'] at this; exact this.1
-      · have := hc; simp only [Bool.and_eq_true, Bool.not_eq_true'] at this
-        intro hmem; have : inputs.contains t = true := by simpa using hmem
-        simp_all
-    · cases hsome
+  simp
+
+theorem mem_badFiles (fs : Fs) (inputs reads : List File) (t : File) :
+    t ∈ badFiles fs inputs reads ↔ ∃ f i, f ∈ reads ∧ i ∈ fs.incs f ∧ resolve fs.libs i = some t ∧
+      (fs.files[t]?.map (·.ok)).getD false = false ∧ t ∉ inputs := by
+  unfold badFiles
+  simp only [List.mem_eraseDups, List.mem_flatMap, List.mem_filterMap]
+  constructor
+  · rintro ⟨f, hf, i, hi, h⟩
+    cases hr : resolve fs.libs i with
+    | none => rw [hr] at h; cases h
+    | some u =>
+      rw [hr] at h
+      simp only at h
+      split at h
+      · rename_i hc
+        cases h
+        have hc' := (badCond_iff fs inputs t).mp hc
+        exact ⟨f, i, hf, hi, hr, hc'.1, hc'.2⟩
+      · cases h
+  · rintro ⟨f, i, hf, hi, hr, hok, hin⟩
+    refine ⟨f, hf, i, hi, ?_⟩
+    rw [hr]
+    simp only
+    rw [if_pos ((badCond_iff fs inputs t).mpr ⟨hok, hin⟩)]
+
+theorem mem_upEdges (fs : Fs) (inputs reads : List File) (v f : File) :
+    (v, f) ∈ upEdges fs inputs reads ↔ f ∈ reads ∧ v ∉ inputs ∧ ∃ i, i ∈ fs.incs f ∧ resolve fs.libs i = some v := by
+  unfold upEdges
+  simp only [List.mem_flatMap, List.mem_filterMap]
+  constructor
+  · rintro ⟨g, hg, i, hi, h⟩
+    cases hr : resolve fs.libs i with
+    | none => rw [hr] at h; cases h
+    | some u =>
+      rw [hr] at h
+      simp only at h
+      split at h
+      · cases h
+      · rename_i hc
+        simp only [Option.some.injEq, Prod.mk.injEq] at h
+        obtain ⟨h1, h2⟩ := h
+        subst h1; subst h2
+        exact ⟨hg, by intro hm; exact hc (by simpa using hm), i, hi, hr⟩
+  · rintro ⟨hf, hv, i, hi, hr⟩
+    refine ⟨f, hf, i, hi, ?_⟩
+    rw [hr]
+    simp only
+    rw [if_neg (by intro hc; exact hv (by simpa using hc))]
+
+/-- **which include statements are reported for a file that cannot be used**: exactly the include statements `(f, idx)` of files
+    that were read whose target `v` is not a named file and is, or leads to, a file `t` that cannot be opened or parsed — `t` is
+    reached from `v` through include statements of files that are not named (`upEdges`: from an included file to a file that
+    includes it).  So a broken file is visible from every named file below which it lies, however deep (audit C05 round 2: at
+    depth two nothing was displayed), and nothing else is reported. -/
+theorem C19_bad_sites_spec (fs : Fs) (inputs reads : List File) (f : File) (idx : Nat) :
+    (f, idx) ∈ badSites fs inputs reads ↔
+      f ∈ reads ∧ ∃ i v, (fs.incs f)[idx]? = some i ∧ resolve fs.libs i = some v ∧ v ∉ inputs ∧
+        ∃ t, t ∈ badFiles fs inputs reads ∧ Taint.Reach (upEdges fs inputs reads) t v := by
+  unfold badSites
+  simp only [List.mem_flatMap, List.mem_filterMap]
+  constructor
+  · rintro ⟨g, hg, ii, hii, h⟩
+    cases hr : resolve fs.libs ii.1 with
+    | none => rw [hr] at h; cases h
+    | some v =>
+      rw [hr] at h
+      simp only at h
+      split at h
+      · rename_i hc
+        simp only [Option.some.injEq, Prod.mk.injEq] at h
+        obtain ⟨h1, h2⟩ := h
+        subst h1
+        simp only [Bool.and_eq_true, Bool.not_eq_true', List.contains_eq_mem, decide_eq_false_iff_not, decide_eq_true_eq,
+          List.mem_flatMap] at hc
+        obtain ⟨hvin, t, ht, hcl⟩ := hc
+        have hget := List.mem_zipIdx_iff_getElem?.mp hii
+        refine ⟨hg, ii.1, v, ?_, hr, hvin, t, ht, ?_⟩
+        · rw [← h2]; simpa using hget
+        · obtain ⟨s, hs, hreach⟩ := (CfgReach.closure_spec _ [t] v).mp hcl
+          have : s = t := by simpa using hs
+          subst this; exact hreach
+      · cases h
+  · rintro ⟨hf, i, v, hget, hr, hvin, t, ht, hreach⟩
+    refine ⟨f, hf, (i, idx), ?_, ?_⟩
+    · exact List.mem_zipIdx_iff_getElem?.mpr (by simpa using hget)
+    · have h1 : inputs.contains v = false := by simpa using hvin
+      have h2 : (List.flatMap (fun t => CfgReach.closure (upEdges fs inputs reads) [t]) (badFiles fs inputs reads)).contains v = true := by
+        simp only [List.contains_eq_mem, decide_eq_true_eq, List.mem_flatMap]
+        exact ⟨t, ht, (CfgReach.closure_spec _ [t] v).mpr ⟨t, by simp, hreach⟩⟩
+      show (match resolve fs.libs i with
+        | some v => if (!inputs.contains v && (List.flatMap (fun t => CfgReach.closure (upEdges fs inputs reads) [t]) (badFiles fs inputs reads)).contains v) = true then some (f, idx) else none
+        | none => none) = some (f, idx)
+      rw [hr]
+      simp only [h1, h2, Bool.not_false, Bool.and_self, if_true]
+
+/-- the reported include statements do not depend on the order in which the files were read: two orders of the same set of files
+    give the same set of reported statements (with `C19_reach` — the files read are the files reachable from the named ones —
+    they do not depend on the order of the arguments) -/
+theorem C19_bad_sites_order (fs : Fs) (inputs reads reads' : List File) (h : ∀ f, f ∈ reads ↔ f ∈ reads') (s : File × Nat) :
+    s ∈ badSites fs inputs reads ↔ s ∈ badSites fs inputs reads' := by
+  obtain ⟨f, idx⟩ := s
+  have hb : ∀ t, t ∈ badFiles fs inputs reads ↔ t ∈ badFiles fs inputs reads' := by
+    intro t; simp only [mem_badFiles, h]
+  have he : ∀ e, e ∈ upEdges fs inputs reads ↔ e ∈ upEdges fs inputs reads' := by
+    intro ⟨a, b⟩; simp only [mem_upEdges, h]
+  have hreach : ∀ t v, Taint.Reach (upEdges fs inputs reads) t v ↔ Taint.Reach (upEdges fs inputs reads') t v := by
+    intro t v
+    constructor
+    · intro hr
+      induction hr with
+      | refl => exact .refl
+      | step _ hedge ih => exact .step ih ((he _).mp hedge)
+    · intro hr
+      induction hr with
+      | refl => exact .refl
+      | step _ hedge ih => exact .step ih ((he _).mpr hedge)
+  simp only [C19_bad_sites_spec, h, hb, hreach]
+
+/-- non-vacuity: `0` (named) includes `1`, which includes `2`, which cannot be parsed: both include statements are reported, the
+    one in the named file is the one the user sees -/
+example : badSites { files := [{ ok := true, includes := [{ rel := some 1, dot := false, sep := false, key := 1 }] },
+                               { ok := true, includes := [{ rel := some 2, dot := false, sep := false, key := 2 }] },
+                               { ok := false, includes := [] }], libs := [] } [0] [0, 1, 2] = [(0, 0), (1, 0)] := by
+  rfl
 
 end Circomspect.C19
